@@ -169,9 +169,16 @@ func buildPreState(ctx context.Context, scratch string) (*PreState, string, erro
 	}
 	if _, err := w.Pub.Publish(ctx, &pubsubpb.PublishRequest{Topic: st.T1, Messages: []*pubsubpb.PubsubMessage{
 		msg(`{"n":1}`, "", map[string]string{"a": "x"}), msg(`{"n":2}`, "K", map[string]string{"a": "x"}),
-		msg(`{"n":3}`, "", nil), msg(`{"n":4}`, "K", map[string]string{"a": "y"}),
+		msg(`{"n":3}`, "", nil),
 	}}); err != nil {
 		return nil, "", err
+	}
+	// the deliverable backlog of S1 (these are never pulled here): payloads of
+	// 1, 2 and 1 bytes, in this order (Rpc!ByteLimit is relative to them)
+	for _, m := range []*pubsubpb.PubsubMessage{msg(`1`, "K", map[string]string{"a": "y"}), msg(`12`, "", nil), msg(`1`, "", map[string]string{"a": "x"})} {
+		if _, err := w.Pub.Publish(ctx, &pubsubpb.PublishRequest{Topic: st.T1, Messages: []*pubsubpb.PubsubMessage{m}}); err != nil {
+			return nil, "", err
+		}
 	}
 	if _, err := w.Pub.Publish(ctx, &pubsubpb.PublishRequest{Topic: st.T2, Messages: []*pubsubpb.PubsubMessage{
 		msg(`{"n":5}`, "", nil), msg(`{"n":6}`, "", nil),
@@ -261,9 +268,10 @@ type Table struct {
 // ---------------------------------------------------------------- request construction
 
 type call struct {
-	req    proto.Message
-	unary  func(ctx context.Context, pub pubsubpb.PublisherClient, sub pubsubpb.SubscriberClient) error
-	stream bool
+	req     proto.Message
+	unary   func(ctx context.Context, pub pubsubpb.PublisherClient, sub pubsubpb.SubscriberClient) error
+	stream  bool
+	session string // StreamingPull: first | open_noack | open_ack
 }
 
 type bld struct {
@@ -359,8 +367,19 @@ func i32(c string) int32 {
 	panic("int class " + c)
 }
 
+// sizes of the first deliverable messages of the valid subscription (see buildPreState)
+const firstMsgBytes, secondMsgBytes = 1, 2
+
 func i64(c string) int64 {
 	switch c {
+	case "first_minus1":
+		return firstMsgBytes - 1
+	case "eq_first":
+		return firstMsgBytes
+	case "first_plus1":
+		return firstMsgBytes + 1
+	case "eq_first_two":
+		return firstMsgBytes + secondMsgBytes
 	case "min":
 		return math.MinInt64
 	case "neg1":
@@ -705,7 +724,12 @@ func build(v Vec, st *PreState) (cl *call, err error) {
 		default:
 			panic("modify_deadline class")
 		}
-		return &call{req: req, stream: true}, nil
+		switch c("session") {
+		case "first", "open_noack", "open_ack":
+		default:
+			panic("session class")
+		}
+		return &call{req: req, stream: true, session: c("session")}, nil
 	case "ModifyPushConfig":
 		req := &pubsubpb.ModifyPushConfigRequest{Subscription: b.subName(c("subscription")), PushConfig: pushCfg(c("push_config"))}
 		return un(req, func(ctx context.Context, _ P, s S) error { _, e := s.ModifyPushConfig(ctx, req); return e }), nil
@@ -1063,7 +1087,7 @@ func (wk *worker) exec1(ctx context.Context, v Vec) (Result, error) {
 	rctx, cancel := context.WithTimeout(ctx, deadline)
 	var rerr error
 	if cl.stream {
-		rerr = streamingPull(rctx, ch.sub, cl.req.(*pubsubpb.StreamingPullRequest))
+		rerr = streamingPull(rctx, ch.sub, cl.req.(*pubsubpb.StreamingPullRequest), cl.session)
 	} else {
 		rerr = cl.unary(rctx, ch.pub, ch.sub)
 	}
@@ -1087,6 +1111,11 @@ func (wk *worker) exec1(ctx context.Context, v Vec) (Result, error) {
 		if code != codes.Unavailable {
 			wait = 50 * time.Millisecond
 		}
+	}
+	if cl.stream && wait < 100*time.Millisecond {
+		// a stream's work runs in goroutines of its own: the process may die during
+		// or right after the session
+		wait = 100 * time.Millisecond
 	}
 	if ch.hasExited(wait) {
 		res.Outcome, res.Code = "crash", ""
@@ -1160,11 +1189,17 @@ func (wk *worker) exec1(ctx context.Context, v Vec) (Result, error) {
 	return res, nil
 }
 
+// sessionOpen is how long a "kept open" StreamingPull session reads responses
+const sessionOpen = 300 * time.Millisecond
+
 // streamingPull sends the first message of a stream and waits for the first
-// answer: a response (the stream is then closed from the client side and
-// drained, so the handler has returned before we look at the tables) or a
-// terminal status.
-func streamingPull(ctx context.Context, sub pubsubpb.SubscriberClient, first *pubsubpb.StreamingPullRequest) error {
+// answer: a terminal status, or a response. Session "first": the stream is
+// then closed from the client side at once; "open_noack" / "open_ack": it is
+// kept open for sessionOpen, reading responses (and, for open_ack,
+// acknowledging them on the stream), and then closed. In every case the
+// stream is drained after the close, so the handler has returned before the
+// tables are read. The caller decides about crash / wedge afterwards.
+func streamingPull(ctx context.Context, sub pubsubpb.SubscriberClient, first *pubsubpb.StreamingPullRequest, session string) error {
 	cctx, cancel := context.WithCancel(ctx)
 	defer cancel()
 	stream, err := sub.StreamingPull(cctx)
@@ -1174,22 +1209,74 @@ func streamingPull(ctx context.Context, sub pubsubpb.SubscriberClient, first *pu
 	if err := stream.Send(first); err != nil && !errors.Is(err, io.EOF) {
 		return err
 	}
-	if _, err := stream.Recv(); err != nil {
+	resp, err := stream.Recv()
+	if err != nil {
 		if errors.Is(err, io.EOF) {
 			return nil
 		}
 		return err
 	}
+	type item struct {
+		r   *pubsubpb.StreamingPullResponse
+		err error
+	}
+	items := make(chan item, 16)
+	go func() {
+		for {
+			r, err := stream.Recv()
+			items <- item{r, err}
+			if err != nil {
+				return
+			}
+		}
+	}()
+	ack := func(r *pubsubpb.StreamingPullResponse) {
+		if session != "open_ack" || r == nil {
+			return
+		}
+		var ids []string
+		for _, m := range r.ReceivedMessages {
+			ids = append(ids, m.AckId)
+		}
+		if len(ids) != 0 {
+			_ = stream.Send(&pubsubpb.StreamingPullRequest{AckIds: ids})
+		}
+	}
+	ended := false
+	if session != "first" {
+		ack(resp)
+		timer := time.After(sessionOpen)
+	open:
+		for {
+			select {
+			case it := <-items:
+				if it.err != nil {
+					ended = true
+					if status.Code(it.err) == codes.DeadlineExceeded {
+						return it.err
+					}
+					break open
+				}
+				ack(it.r)
+			case <-timer:
+				break open
+			}
+		}
+	}
+	if ended {
+		// whatever ended the established stream, the request itself was answered OK
+		return nil
+	}
 	_ = stream.CloseSend()
-	for {
-		if _, err := stream.Recv(); err != nil {
-			// whatever ends the established stream now, the request was answered OK
-			if status.Code(err) == codes.DeadlineExceeded {
-				return err
+	for it := range items {
+		if it.err != nil {
+			if status.Code(it.err) == codes.DeadlineExceeded {
+				return it.err
 			}
 			return nil
 		}
 	}
+	return nil
 }
 
 // ---------------------------------------------------------------- run
@@ -1281,6 +1368,18 @@ func withDev(t *Table, v Vec, fields []string) Vec {
 }
 
 func sigOf(v Vec, fields []string) string {
+	// the outcome of a stream depends on how long the session is kept: the session
+	// class is always part of a StreamingPull signature
+	if _, ok := v.F["session"]; ok {
+		has := false
+		for _, k := range fields {
+			has = has || k == "session"
+		}
+		if !has {
+			fields = append(append([]string(nil), fields...), "session")
+			sort.Strings(fields)
+		}
+	}
 	if len(fields) == 0 {
 		return v.RPC + ".(valid request)"
 	}
@@ -1288,7 +1387,7 @@ func sigOf(v Vec, fields []string) string {
 	for _, k := range fields {
 		parts = append(parts, k+"="+v.F[k])
 	}
-	return v.RPC + "." + strings.Join(parts, "&")
+	return v.RPC + "." + strings.Join(parts, "+")
 }
 
 // minimise attributes every violating result to the smallest set(s) of
